@@ -129,10 +129,10 @@ var c06Families = []c06Family{
 		if hugeRange(c.E, c.Data) {
 			return fw.Result{Verdict: fw.Skip}
 		}
-		prog, posName := c01Program(c.E, c.Data, pos, nil)
+		prog, posName := c01Program(c.E, c.Data, pos, c.Globals)
 		files := bundleSources(prog.B, ref.Layout{})
 		ctx.Cell("pos:" + posName)
-		ok, _ := totalRender(ctx, files, nil, prog.Entry, c.Data, nil, k%5 == 0)
+		ok, _ := totalRender(ctx, files, c.Globals, prog.Entry, c.Data, nil, k%5 == 0)
 		id := ""
 		if ok {
 			id = files[0].Text + fmt.Sprint(goData(c.Data))
